@@ -79,3 +79,39 @@ pub fn limbs(len: usize) -> BoxedStrategy<Vec<u64>> {
 pub fn carry_prone(vs: &[&[u64]]) -> bool {
     vs.iter().any(|v| v.iter().any(|&l| l >> 63 == 1))
 }
+
+/// A prime p ≡ 1 (mod 2N) with about `bits` bits (the smallest bit size >= `bits` for which one exists),
+/// chosen by `sel` among the few largest / smallest primes of that size. Deterministic.
+pub fn ntt_prime(logn: u32, bits: u32, sel: u8) -> u64 {
+    let two_n = 2u64 << logn;
+    let mut b = bits.max(logn + 2).max(2);
+    loop {
+        assert!(b <= 62, "no NTT prime found");
+        let k = (sel % 4) as usize;
+        let list = if sel & 0x80 == 0 { refmath::primes_desc(two_n, b, k + 1) } else { refmath::primes_asc(two_n, b, k + 1) };
+        if !list.is_empty() { return list[k.min(list.len() - 1)]; }
+        b += 1;
+    }
+}
+
+/// `count` distinct NTT primes for degree 2^logn with the given bit sizes (in that order).
+pub fn ntt_primes_distinct(logn: u32, bits: &[u32], sels: &[u8]) -> Vec<u64> {
+    let mut out: Vec<u64> = vec![];
+    for (i, &b) in bits.iter().enumerate() {
+        let mut sel = sels[i % sels.len().max(1)];
+        let mut p = ntt_prime(logn, b, sel);
+        let mut tries = 0;
+        while out.contains(&p) {
+            // walk through the candidates of this size, then bump the size
+            tries += 1;
+            sel = sel.wrapping_add(1);
+            p = if tries < 4 { ntt_prime(logn, b, sel) } else {
+                let two_n = 2u64 << logn;
+                let list = refmath::primes_desc(two_n, b.max(logn + 2), out.len() + 2);
+                match list.into_iter().find(|x| !out.contains(x)) { Some(x) => x, None => ntt_prime(logn, b + 1 + (tries as u32 - 4), sel) }
+            };
+        }
+        out.push(p);
+    }
+    out
+}
